@@ -89,6 +89,7 @@ structure HDDrv where
   -- monitor memory
   reqView : Option View := none          -- the request point (Ready/Ante/Blinds) we are at, if any
   answered : List Nat := []              -- game indexes whose ready/pay was accepted since `reqView`
+  nested : Bool := false                 -- the next state line is a re-publication made from inside the previous one's notification
   lastInjected : Option (Nat × String × Int) := none
   handOpen : Bool := false
   cnt : Counter := {}
@@ -137,7 +138,9 @@ def hdLine (d : HDDrv) (lineNo : Nat) (ts : List String) : HDDrv × List String 
         match statDiff with
         | some e => [s!"MISMATCH hd hist={d.hist} line={lineNo} field=statistics player={e.1} model={repr (maskSD (statsOf m1.players e.1))} impl={repr (maskSD e.2)}"]
         | none =>
-          if !(lastAgrees m1.last last) then [s!"MISMATCH hd hist={d.hist} line={lineNo} field=last-action model={repr m1.last} impl={repr last}"]
+          -- (the engine clears the last action of a closed round *after* notifying; a re-publication made from inside that
+          -- notification still carries it)
+          if !(d.nested && republished) && !(lastAgrees m1.last last) then [s!"MISMATCH hd hist={d.hist} line={lineNo} field=last-action model={repr m1.last} impl={repr last}"]
           else if m1.endAt != endat then [s!"MISMATCH hd hist={d.hist} line={lineNo} field=deadline model={m1.endAt} impl={endat} arms={arms}"]
           else []
       -- 2. monitors
@@ -145,7 +148,9 @@ def hdLine (d : HDDrv) (lineNo : Nat) (ts : List String) : HDDrv × List String 
       -- C15
       let v15 :=
         (if arms && !(t0 + m.actionTime ≤ endat && endat ≤ t1 + m.actionTime) then ["C15.deadline-is-not-request-time-plus-action-time"] else []) ++
-        (if v.event == "RoundClosed" && endat != 0 then ["C15.deadline-not-cleared-when-the-round-closed"] else [])
+        -- (judged on the publication of the closed round itself; a later re-publication of the same state may carry an
+        -- extension somebody asked for in the meantime)
+        (if v.event == "RoundClosed" && !republished && endat != 0 then ["C15.deadline-not-cleared-when-the-round-closed"] else [])
       -- C11: who is asked; nobody moves on before everybody answered
       let isReq := v.event == "ReadyRequested" || v.event == "AnteRequested" || v.event == "BlindsRequested"
       let kind := if v.event == "ReadyRequested" then "ready" else "pay"
@@ -174,7 +179,7 @@ def hdLine (d : HDDrv) (lineNo : Nat) (ts : List String) : HDDrv × List String 
           (if v.hasResult then [] else ["C11.hand-closed-without-a-result"])
         else []
       let (d, out2) := viol d (vPF ++ v15 ++ v11a ++ v11b ++ v14)
-      let d := { d with cnt := (d.cnt.bump "states").bump ("ev." ++ v.event),
+      let d := { d with nested := false, cnt := (d.cnt.bump "states").bump ("ev." ++ v.event),
                         reqView := if isReq then some v else none, answered := if isReq && (d.reqView.map (fun (x : View) => x.stamp)) == some v.stamp then d.answered else [] }
       if out1.isEmpty then ({ d with model := some (afterEmit m1 v) }, out2)
       else if d.diverged then ({ d with model := some (afterEmit m1 v) }, out2)
@@ -231,7 +236,7 @@ def hdLine (d : HDDrv) (lineNo : Nat) (ts : List String) : HDDrv × List String 
     | some dd, some ret =>
       let (m1, r) := extend m dd
       let (d, out) := viol d (if r == ret then [] else ["C15.extension-did-not-move-the-deadline-by-the-requested-seconds"])
-      ({ d with model := some { m1 with endAt := ret }, cnt := d.cnt.bump "extends" }, out)
+      ({ d with model := some { m1 with endAt := ret }, nested := (kv rest "closed").getD "0" == "1", cnt := d.cnt.bump "extends" }, out)
     | _, _ => (d, [s!"BADLINE {lineNo} hd-extend"])
   | "between" :: rest =>
     match kvInt rest "endat", (kv rest "last").bind parseLast, (kv rest "stats").bind parseStats with
